@@ -40,6 +40,28 @@ static std::string answer(sb_trajectory_t* tr, const std::string& q)
         calc.acceleration = acc;
         sb_error_t rc = sb_trajectory_stats_calculator_run(&calc, tr, &st);
         sb_trajectory_stats_calculator_destroy(&calc);
+        // the one-pass interface asked for fewer components at once: every subset containing the takeoff time must give the
+        // same answer as the full run; the first one that does not is the one reported to the judge
+        for (int m = 0; m < 16; m++) {
+            if (!(m & SB_TRAJECTORY_STATS_TAKEOFF_TIME) || m == SB_TRAJECTORY_STATS_ALL)
+                continue;
+            sb_trajectory_stats_calculator_t c2;
+            sb_trajectory_stats_t s2;
+            memset(&s2, SBH_FILL, sizeof(s2));
+            sb_trajectory_stats_calculator_init(&c2, 1.0f);
+            c2.min_ascent = h;
+            c2.takeoff_speed = v;
+            c2.acceleration = acc;
+            sb_trajectory_stats_calculator_set_components(&c2, (sb_trajectory_stat_components_t)m);
+            sb_error_t rc2 = sb_trajectory_stats_calculator_run(&c2, tr, &s2);
+            sb_trajectory_stats_calculator_destroy(&c2);
+            if (rc2 != rc || (rc == SB_SUCCESS && (memcmp(&s2.takeoff_time_sec, &st.takeoff_time_sec, sizeof(float)) != 0
+                || memcmp(&s2.earliest_above_sec, &st.earliest_above_sec, sizeof(float)) != 0))) {
+                rc = rc2;
+                st = s2;
+                break;
+            }
+        }
         float adj = sb_get_travel_time_for_distance(h, v, acc);
         return fbits(prop) + "," + std::to_string((int)rc) + "," + fbits(rc == SB_SUCCESS ? st.takeoff_time_sec : 0.0f) + ","
             + fbits(rc == SB_SUCCESS ? st.earliest_above_sec : 0.0f) + "," + fbits(adj);
@@ -55,6 +77,25 @@ static std::string answer(sb_trajectory_t* tr, const std::string& q)
         calc.verticality_threshold = thr;
         sb_error_t rc = sb_trajectory_stats_calculator_run(&calc, tr, &st);
         sb_trajectory_stats_calculator_destroy(&calc);
+        // ... and every subset of components containing the landing time (see the takeoff query)
+        for (int m = 0; m < 16; m++) {
+            if (!(m & SB_TRAJECTORY_STATS_LANDING_TIME) || m == SB_TRAJECTORY_STATS_ALL)
+                continue;
+            sb_trajectory_stats_calculator_t c2;
+            sb_trajectory_stats_t s2;
+            memset(&s2, SBH_FILL, sizeof(s2));
+            sb_trajectory_stats_calculator_init(&c2, 1.0f);
+            c2.preferred_descent = pd;
+            c2.verticality_threshold = thr;
+            sb_trajectory_stats_calculator_set_components(&c2, (sb_trajectory_stat_components_t)m);
+            sb_error_t rc2 = sb_trajectory_stats_calculator_run(&c2, tr, &s2);
+            sb_trajectory_stats_calculator_destroy(&c2);
+            if (rc2 != rc || (rc == SB_SUCCESS && memcmp(&s2.landing_time_sec, &st.landing_time_sec, sizeof(float)) != 0)) {
+                rc = rc2;
+                st = s2;
+                break;
+            }
+        }
         return fbits(prop) + "," + std::to_string((int)rc) + "," + fbits(rc == SB_SUCCESS ? st.landing_time_sec : 0.0f) + ","
             + fbits(sb_trajectory_get_total_duration_sec(tr));
     } else if (k == 'B') {
